@@ -28,7 +28,14 @@ pub fn bdd_cfg(u: &mut Unstructured, max_n0: u8) -> Result<BddCfg> {
 pub fn bop(u: &mut Unstructured) -> Result<BOp> {
     Ok(match u.arbitrary::<u8>()? % 18 {
         0 | 1 => BOp::Lit(u.arbitrary()?, u.arbitrary()?),
-        2 => BOp::Const(u.arbitrary()?),
+        2 => {
+            let x: u8 = u.arbitrary()?;
+            if x & 0xC0 == 0xC0 {
+                BOp::Dense([u.arbitrary()?, u.arbitrary()?, u.arbitrary()?, u.arbitrary()?])
+            } else {
+                BOp::Const(x & 1 == 1)
+            }
+        }
         3 => BOp::Not(u.arbitrary()?),
         4 | 5 => BOp::And(u.arbitrary()?, u.arbitrary()?),
         6 => BOp::Or(u.arbitrary()?, u.arbitrary()?),
